@@ -947,7 +947,9 @@ class AsyncIteratorQueue(IteratorQueue[_ValueT], AsyncIterableQueue[_ValueT]):
     if not isinstance(iterator, AsyncIterator):
       iterator = aiter(iterator)
     self._start_enqueue()
-    while True:
+    # Same as enqueue_from_iterator: stops after a stop request or a failure of
+    # another enqueuer instead of draining the iterator for nothing.
+    while not self.enqueue_done:
       try:
         value = await asyncio.wait_for(anext(iterator), self.timeout)
         await self.async_put(value)
